@@ -169,6 +169,17 @@ def run_case(cls, params, rec):
 		m = n + delta
 		args[j] = make_args(max(m, 0), k)[j] if m > 0 else args[j][:0]
 	nontriv = (n % b != 0) or b > n or k > 0
+	# the kind of object that carries the batch size (a value read from a
+	# config array or tensor); the object itself must come back unchanged
+	bkind = params.get("bkind") or ["int", "int", "npint", "np0d", "t0d"][
+		gen.pyrng("C03bkind", repr(sorted((k_, repr(v_)) for k_, v_ in
+		params.items() if k_ not in ("layout", "bkind")))).randrange(5)]
+	params = dict(params, bkind=bkind)
+	b_int = b
+	b = {"int": lambda: b_int, "npint": lambda: numpy.int64(b_int),
+		"np0d": lambda: numpy.array(b_int),
+		"t0d": lambda: torch.tensor(b_int)}[bkind]()
+	rec.setadd("batch_size_kinds", bkind)
 	# the same values in another memory layout (non-contiguous, storage
 	# offset, strided); the surrounding storage is watched as well
 	params, X, xbase = gen.apply_layout(params, rec, X)
